@@ -552,7 +552,7 @@ def _gen_c18(rng, tier, i):
         if len(chs) == 2 and rng.random() < 0.3:
             chs = [",".join(chs)]
     plan = {"engine": "lssim", "tree": entries, "recs": recs, "cmd": cmd, "flags": flags, "chs": chs,
-            "src_alias": rng.random() < 0.25, "pre_dest": rng.randrange(2) if rng.random() < 0.25 else None, "pre_dest_kind": rng.choice(["short", "same_size"]),
+            "src_alias": rng.random() < 0.25, "dest_alias": rng.random() < 0.2, "pre_dest": rng.randrange(2) if rng.random() < 0.25 else None, "pre_dest_kind": rng.choice(["short", "same_size"]),
             "timeform": rng.choice(["z", "z", "naive", "+0530", "-0800", "unix"]), "end_relative": rng.random() < 0.2,
             "only": rng.random() < 0.2, "reverse": rng.random() < 0.3, "symbolic": cmd == "ln" and rng.random() < 0.5,
             "start": None, "end": None, "readdir_seed": rng.randrange(2**32)}
@@ -612,6 +612,16 @@ def _run_c18(plan, res, sc):
 
     src = os.path.join(sc, "tree", "src")
     dest = os.path.join(sc, "tree", "dest")
+    dest_arg = dest
+    if plan.get("dest_alias"):
+        # the destination is reached through a symbolic link to a directory at another depth
+        # (/data/current -> /mnt/disk2/runs/run5, destination /data/current/out)
+        real_parent = os.path.join(sc, "tree", "phys", "disk2", "runs", "run5")
+        os.makedirs(real_parent)
+        os.makedirs(os.path.join(sc, "tree", "links"), exist_ok=True)
+        os.symlink(real_parent, os.path.join(sc, "tree", "links", "current"))
+        dest = os.path.join(real_parent, "out")
+        dest_arg = os.path.join(sc, "tree", "links", "current", "out")
     build_tree(src, plan["tree"], content=True)
     # real recordings (in a node: process isolation for the C library)
     for r in plan["recs"]:
@@ -654,7 +664,7 @@ def _run_c18(plan, res, sc):
             src_arg = os.path.join(sc, "tree", "links", "alias")
             if not os.path.lexists(src_arg):
                 os.symlink(src, src_arg)
-        args = _args_for(plan, src_arg, dest)
+        args = _args_for(plan, src_arg, dest_arg)
         res.trace.add(" ".join(a.replace(sc, "") for a in args))
         planted = []
         if plan.get("pre_dest") is not None:
